@@ -89,6 +89,14 @@ _SHAPES = [
      ".map(|ptr| unsafe { Buffer::from_custom_allocation(ptr, len, owner) })"),
     ("SHAPE_FFI_IMPORT_CLONE", "arrow-array/src/ffi.rs",
      "match unsafe { create_buffer(self.owner.clone(), self.array, index, len) } {"),
+    # align_nulls: exactly three branches, in this order (same offsets: share; data offset 0:
+    # sliced(); else zeroed bitmap + set_bits at data_offset)
+    ("SHAPE_ALIGN_NULLS_SAME", "arrow-data/src/ffi.rs",
+     "let nulls = nulls?; if data_offset == nulls.offset() { // Underlying buffer is already aligned return Some(nulls.buffer().clone()); } if data_offset == 0 { return Some(nulls.inner().sliced()); } let mut builder = MutableBuffer::new_null(data_offset + nulls.len());"),
+    ("SHAPE_ALIGN_NULLS_COPY", "arrow-data/src/ffi.rs",
+     "set_bits( builder.as_slice_mut(), nulls.validity(), data_offset, nulls.offset(), nulls.len(), ); Some(builder.into()) }"),
+    ("SHAPE_ALIGN_NULLS_CALL", "arrow-data/src/ffi.rs",
+     "std::iter::once(align_nulls(data.offset(), data.nulls()))"),
 ]
 CONSTANTS["C16"] += [(name, path, _shape(snip), "intlist") for (name, path, snip) in _SHAPES]
 FUNCTIONS = {}
